@@ -5,8 +5,9 @@
              BoltChainDB is this by definition (bbolt is trusted);
     - [mem]  chain.MemDB, transcribed from chain/db.go (three maps);
     - [cache] chain.CacheDB over an arbitrary [backend].
-    Buckets, keys and values are numbers; values are non-empty, so Go's nil
-    result is [None]. *)
+    Buckets, keys and values are numbers; value 0 stands for the empty (zero-length,
+    non-nil) byte string, which the chain store does write; a nil value is never
+    written, so Go's nil result is [None]. *)
 From stdpp Require Import gmap.
 From Coq Require Import NArith.
 
